@@ -146,7 +146,13 @@ func (c exactEqualsComparator) lineStringsEq(ls1, ls2 LineString) bool {
 		return revEq
 	}
 
-	// Finally, check if the rings are the same once rotated.
+	// Finally, check if the rings are the same once rotated. The rotation
+	// treats each ring as a cycle of its first n-1 coordinates, so it only
+	// applies when the closing coordinate repeats the first one (including Z
+	// and M, which IsRing doesn't consider).
+	if !c.eq(c1.Get(0), c1.Get(n-1)) || !c.eq(c2.Get(0), c2.Get(n-1)) {
+		return false
+	}
 	for o := 1; o < n; o++ {
 		offset := func(i int) int {
 			return (i + o) % (n - 1)
